@@ -60,14 +60,20 @@ func gossipRuns(id, tier string) []gRun {
 					// an awaiting contract that gets confirmed at the origin at any moment of its dissemination: the sealing
 					// vertex overtakes, or is overtaken by, (duplicates of) the transaction messages
 					out = append(out, gRun{fmt.Sprintf("%s/origin=%s/trx-settled", t, origin),
-						gnet.Cfg{Nodes: topoNodes[t], Edges: topologies[t], Origin: origin, Items: "trx-settled", Dup: true, Prop: "C11"}, 40})
+						gnet.Cfg{Nodes: topoNodes[t], Edges: topologies[t], Origin: origin, Items: "trx-settled", Dup: true, SyncRPC: true, Prop: "C11"}, 40})
+				}
+				if len(topoNodes[t]) <= 3 && t != "triangle" {
+					// a dependent pair followed, once everything has settled, by a third vertex from the same origin
+					// (synchronous RPCs: what a sender does with the receiver's answer shows in the later item)
+					out = append(out, gRun{fmt.Sprintf("%s/origin=%s/pair-then-third", t, origin),
+						gnet.Cfg{Nodes: topoNodes[t], Edges: topologies[t], Origin: origin, Items: "pair-then-third", SyncRPC: true, Prop: "C11"}, 40})
 				}
 				for _, it := range items {
 					dup := len(topoNodes[t]) <= 3
 					// the duplicate-suppression window may lapse once per node on the cyclic 4-node graphs (single vertex item)
 					expire := it == "vertex" && (t == "cycle4" || t == "diamond4" || t == "triangle")
 					out = append(out, gRun{fmt.Sprintf("%s/origin=%s/%s", t, origin, it),
-						gnet.Cfg{Nodes: topoNodes[t], Edges: topologies[t], Origin: origin, Items: it, Dup: dup, Expire: expire, Prop: "C11"}, 40})
+						gnet.Cfg{Nodes: topoNodes[t], Edges: topologies[t], Origin: origin, Items: it, Dup: dup, Expire: expire, SyncRPC: true, Prop: "C11"}, 40})
 				}
 			}
 		}
